@@ -17,3 +17,4 @@ open HmcVerif HmcVerif.C12 HmcVerif.Async
 #print axioms sendOk_preserved
 #print axioms symmetric_send_deadlocks
 #print axioms symmetric_send_completes_when_buffered
+#print axioms stopped_partner_blocks_forever
